@@ -35,31 +35,20 @@ def diagnostics : List String :=
   unless diagnostics.isEmpty do
     throw <| IO.userError ("\n".intercalate diagnostics)
 
-/-- **Full statement** (kept visible; false on the unchanged tree, see the counterexample). -/
-def C17_sites_statement : Prop := ∀ s ∈ sites, siteOk s = true
+/-- **Every blocking site is released by Stop**: every send/receive/range/select/Wait of the shutdown-relevant files
+has a `default`, or a quit alternative closed in time, or a reviewed discharge reason.  (Full statement; it was false
+while `knownBlocking` carried the MarkAsConfirmed and Stop-order findings, both repaired since.) -/
+theorem C17_sites : ∀ s ∈ sites, siteOk s = true := by
+  have h : sites.all siteOk = true := by decide +kernel
+  exact fun s hs => List.all_eq_true.mp h s hs
 
-/-- **Every blocking site is released by Stop, except the recorded ones**: every
-send/receive/range/select/Wait of the shutdown-relevant files has a `default`, or
-a quit alternative closed in time, or a reviewed discharge reason — or is one of
-the `knownBlocking` findings. -/
-theorem C17_sites_partial : ∀ s ∈ sites, siteOk s = true ∨ isKnownBlocking s = true := by
-  have h : sites.all (fun s => siteOk s || isKnownBlocking s) = true := by decide +kernel
-  intro s hs
-  have := List.all_eq_true.mp h s hs
-  cases h1 : siteOk s
-  · right; simpa [h1] using this
-  · left; rfl
+/-- the form that carries recorded findings: every site is released, or is one of `knownBlocking` (empty today) -/
+theorem C17_sites_partial : ∀ s ∈ sites, siteOk s = true ∨ isKnownBlocking s = true :=
+  fun s hs => Or.inl (C17_sites s hs)
 
-/-- the full statement fails exactly at recorded sites: each `knownBlocking` key names an extracted
-site that no rule releases (so none of the entries is stale, and the finding is still in the code) -/
+/-- every `knownBlocking` key names an extracted site that no rule releases (no recorded finding is stale) -/
 theorem C17_sites_counterexample :
     knownBlocking.all (fun k => sites.any (fun s => (keysOf s).contains k && !siteOk s)) = true := by
-  decide +kernel
-
-theorem C17_sites_statement_false : ¬ C17_sites_statement := by
-  intro h
-  have hall : sites.all siteOk = true := List.all_eq_true.mpr h
-  revert hall
   decide +kernel
 
 /-- the sites of the two rules that need no review: `default`, or a Stop-closed quit alternative -/
@@ -104,6 +93,5 @@ theorem C17_quits_are_closed : comps.all (fun c => stopClosed.contains c.quit) =
 /- the hypotheses are not vacuous: a concrete released site of each rule, and one that is not -/
 example : ∃ s ∈ sites, ruleA s = true := by decide +kernel
 example : ∃ s ∈ sites, ruleA s = false ∧ ruleB chainServiceStop stopEvents s = true := by decide +kernel
-example : ∃ s ∈ sites, siteOk s = false := by decide +kernel
 
 end Neutrino.Shutdown
